@@ -34,6 +34,10 @@
 (*   "WeightsCastAtConstruction"  the constructor converts the weights to  *)
 (*                                a numpy array (np.asarray...), the       *)
 (*                                redshifts stay as passed  (seed C16-K)   *)
+(*   "SamplesCastAtConstruction"  admissible alternative design: BOTH      *)
+(*                                sample sets are converted to numpy       *)
+(*                                arrays (both lookups by position);       *)
+(*                                JointRow holds, other rows are drawn     *)
 (***************************************************************************)
 EXTENDS Naturals, Sequences, FiniteSets, TLC
 
@@ -70,8 +74,8 @@ Init == /\ sc \in {[c |-> c, ix |-> ix] : c \in Containers, ix \in Perms}
 
 Store ==                    \* RandomsBase.__init__
     /\ pc = "new"
-    /\ stw' = IF Dev("WeightsCastAtConstruction") THEN "ndarray" ELSE sc.c
-    /\ stz' = sc.c
+    /\ stw' = IF Dev("WeightsCastAtConstruction") \/ Dev("SamplesCastAtConstruction") THEN "ndarray" ELSE sc.c
+    /\ stz' = IF Dev("SamplesCastAtConstruction") THEN "ndarray" ELSE sc.c
     /\ pc' = "stored"
     /\ UNCHANGED <<sc, idx, pw, pz>>
 
